@@ -64,6 +64,50 @@ def seq_problems(term):
     return out
 
 
+def pool_problems(path):
+    """Does the loaded constant pool hold the constants of the file one-to-one and in file order?
+    Accepted: the pool is `(0..n).map(|_| read constant).collect()`, or a vector that every iteration of the reading
+    loop pushes the constant it read onto, exactly once. Anything else (conditional insertion, find-or-insert,
+    insertion at an index) is reported: indices in instructions, classes, globals and the entry refer to file positions."""
+    out = path["out"][1]
+    if out[0] != "ctor":
+        return ["no loaded program"]
+    cp = dict(out[3]).get("constant_pool")
+    if cp is None:
+        return ["the loaded program has no constant_pool field"]
+    inner = cp
+    while inner[0] == "ctor" and len(inner[3]) == 1:
+        inner = inner[3][0][1]
+    loops = [e for e in path["eff"] if e["k"] == "foreach" and any(x["k"] == "sub_read" and x["args"][0] == lit("constant") for q in e.get("paths", []) for x in q["eff"])]
+    if len(loops) != 1:
+        return ["%d loops read constants (expected one)" % len(loops)]
+    lp = loops[0]
+    it = lp["args"][0]
+    if not (it[0] == "iter" and it[2] == "fwd" and it[1][0] == "ctor" and (it[1][1] or "").endswith("Range")):
+        return ["the constants are not read by a forward loop over 0..count"]
+    if inner[0] == "app" and inner[1] == "collected":
+        if inner[2][0] != lit(lp.get("loop")):
+            return ["the pool is collected from another loop than the one that reads the constants"]
+        if lp.get("filtered") or tuple(lp.get("pipeline") or ()) != ("map",):
+            return ["the constants read pass through %s before they are collected" % (list(lp.get("pipeline") or ()),)]
+        for q in lp["paths"]:
+            reads = [x["res"] for x in q["eff"] if x["k"] == "sub_read"]
+            if len(reads) != 1 or q["out"] != ("val", reads[0]):
+                return ["an iteration does not yield exactly the constant it read"]
+        return []
+    if inner[0] == "obj":
+        for q in lp["paths"]:
+            reads = [x["res"] for x in q["eff"] if x["k"] == "sub_read"]
+            pushes = [x for x in q["eff"] if x["k"] == "call" and x["args"][0][1].endswith("::push") and x["args"][1] == inner]
+            others = [x for x in q["eff"] if x["k"] == "call" and len(x["args"]) > 1 and x["args"][1] == inner and not x["args"][0][1].endswith(("::push", "::len", "::get", "::iter"))
+                      and ("Vec" in x["args"][0][1] or "slice" in x["args"][0][1])]
+            if len(reads) != 1 or len(pushes) != 1 or pushes[0]["args"][2] != reads[0] or others:
+                return ["on some iteration the constant read is not appended to the pool exactly once (%d read, %d push%s): equal or skipped constants shift every later index" % (
+                    len(reads), len(pushes), ", other mutation" if others else "")]
+        return []
+    return ["cannot relate the pool (%s) to the constants read" % (inner[0],)]
+
+
 def strip_cast(t):
     while isinstance(t, tuple) and t and t[0] == "app" and t[1] == "cast":
         t = t[2][1]
